@@ -45,7 +45,7 @@ class OnMessage:
         out = []
 
         def rec(f):
-            for g in f.nested().values():
+            for g in f.nested_list():
                 out.append(g)
                 rec(g)
 
